@@ -370,6 +370,76 @@ fn s_peek_action() {
     kani::cover!(any_due && d == Duration::ZERO, "an action is due right now");
 }
 
+/// quick variants with one slot per side
+#[kani::proof]
+#[kani::unwind(3)]
+fn s_peek_internal_q() {
+    let now = any_instant();
+    let tc = [any_opt_instant()];
+    let ts = [any_opt_instant()];
+    let d = peek_scheduled_internal_timer(&tc, &ts, now);
+    let allt = [tc[0], ts[0]];
+    let mut any_due = false;
+    let mut hit = false;
+    let mut i = 0;
+    while i < 2 {
+        if let Some(t) = allt[i] {
+            if t >= now {
+                any_due = true;
+                let w = t.duration_since(now);
+                assert!(d <= w, "C18: TimerEnd is never reported after simulated time moved past the expiry");
+                hit |= d == w;
+            }
+        }
+        i += 1;
+    }
+    if any_due {
+        assert!(hit, "C18: the next timer expiry is the expiry of a running timer");
+    } else {
+        assert!(d == Duration::MAX, "C18: without a running timer nothing expires");
+    }
+    kani::cover!(any_due && d == Duration::ZERO, "a timer expires right now");
+}
+#[kani::proof]
+#[kani::unwind(3)]
+fn s_peek_action_q() {
+    let now = any_instant();
+    let mk = |mi: usize| -> Option<ScheduledAction> {
+        if kani::any() {
+            None
+        } else {
+            Some(ScheduledAction {
+                action: TriggerAction::SendPadding { timeout: Duration::ZERO, bypass: false, replace: false, machine: MachineId::from_raw(mi) },
+                time: any_instant(),
+            })
+        }
+    };
+    let sc = [mk(0)];
+    let ss = [mk(0)];
+    let d = peek_scheduled_action(&sc, &ss, now);
+    let all = [&sc[0], &ss[0]];
+    let mut any_due = false;
+    let mut hit = false;
+    let mut i = 0;
+    while i < 2 {
+        if let Some(a) = all[i] {
+            if a.time >= now {
+                any_due = true;
+                let w = a.time.duration_since(now);
+                assert!(d <= w, "C17: an action that is not superseded fires when due, before simulated time moves past it");
+                hit |= d == w;
+            }
+        }
+        i += 1;
+    }
+    if any_due {
+        assert!(hit, "C17: the next action time is the due time of a pending action");
+    } else {
+        assert!(d == Duration::MAX, "C17: without a pending action nothing is due");
+    }
+    kani::cover!(any_due && d == Duration::ZERO, "an action is due right now");
+}
+
 #[kani::proof]
 #[kani::unwind(4)]
 fn s_peek_internal() {
@@ -509,58 +579,76 @@ stack_sr!(s_stack_tunnel_recv, 2);
 
 /// PaddingSent: either one padding TunnelSent is queued, or (replace) an already queued normal
 /// packet takes its place: the normal packet is re-labelled, never duplicated, never turned into padding.
-#[kani::proof]
-#[kani::unwind(4)]
-#[kani::stub(alloc::fmt::format, format_stub)]
-#[kani::stub(rand::thread_rng, no_thread_rng)]
-fn s_stack_padding_sent() {
+fn stack_padding_sent(queued: bool, bypass_case: u8) {
     let t0 = any_instant();
     let none: &[Machine] = &[];
     let mut side = state_with(none, t0);
     let mut other = state_with(none, t0);
     side.blocking_until = any_opt_instant();
     side.blocking_bypassable = kani::any();
-    let mut network = crate::network::verif_kani::small_bottleneck(Network::new(any_duration_upto(10_000_000), None), Duration::from_secs(1), usize::MAX, Duration::ZERO);
+    let mut network = crate::network::verif_kani::small_bottleneck(Network::new(Duration::from_micros(1000), None), Duration::from_secs(1), usize::MAX, Duration::ZERO);
     let mut sq = empty_queue();
     let now = any_instant();
     let is_client: bool = kani::any();
     // possibly one normal packet already waiting to enter the tunnel on this side
-    let queued: bool = kani::any();
     let qtime = any_instant();
     kani::assume(qtime <= now);
     if queued {
         sq.push_sim(SimEvent { event: TriggerEvent::TunnelSent, time: qtime, integration_delay: Duration::ZERO, client: is_client,
             contains_padding: false, bypass: false, replace: false, debug_note: None });
     }
-    let (bypass, replace): (bool, bool) = (kani::any(), kani::any());
+    let bypass: bool = if bypass_case == 2 { kani::any() } else { bypass_case == 1 };
+    let replace: bool = kani::any();
     let next = SimEvent { event: TriggerEvent::PaddingSent { machine: MachineId::from_raw(0) }, time: now, integration_delay: Duration::ZERO,
         client: is_client, contains_padding: true, bypass, replace, debug_note: None };
     let activity = sim_network_stack(&next, &mut sq, &side, &mut other, &mut network, &now);
     assert!(!activity, "C15: sending padding into the local queue is not network activity");
     let mine = if is_client { &sq.client } else { &sq.server };
     let theirs = if is_client { &sq.server } else { &sq.client };
-    assert!(theirs.len() == 0, "C15: padding sent on one side queues nothing on the other side");
-    let normals = mine.blocking.iter().chain(mine.bypassable.iter()).filter(|e| !e.contains_padding).count();
-    let paddings = mine.blocking.iter().chain(mine.bypassable.iter()).filter(|e| e.contains_padding).count();
-    assert!(normals == queued as usize, "C15: normal packets are never created, duplicated or dropped by padding (replace re-labels the queued packet)");
+    assert!(theirs.len() == 0 && mine.base.len() == 0 && mine.internal.len() == 0, "C15: padding sent on one side queues nothing but tunnel packets on that side");
     if replace && queued {
-        assert!(paddings == 0, "C15: a replaced padding adds no packet: the queued normal packet is sent in its place");
-        let e = mine.blocking.peek().or(mine.bypassable.peek()).unwrap();
-        assert!(e.event == TriggerEvent::TunnelSent && e.time == qtime && !e.contains_padding, "C15: the queued normal packet keeps its kind and time");
+        assert!(mine.len() == 1, "C15: a replaced padding adds no packet: the queued normal packet is sent in its place (never duplicated, never dropped)");
+        let e = if mine.blocking.len() == 1 { mine.blocking.peek().unwrap() } else { mine.bypassable.peek().unwrap() };
+        assert!(e.event == TriggerEvent::TunnelSent && e.time == qtime && !e.contains_padding && e.client == is_client, "C15: the queued normal packet keeps its kind, side and time");
         assert!(e.bypass == bypass, "C16: the queued normal packet may bypass blocking only when the padding it replaces claims bypass");
     } else {
-        assert!(paddings == 1 && mine.len() == 1 + queued as usize, "C15: padding that replaces nothing is queued as exactly one padding packet");
-        let e = if bypass { mine.bypassable.peek() } else { mine.blocking.iter().find(|e| e.contains_padding) };
+        assert!(mine.len() == 1 + queued as usize, "C15: padding that replaces nothing is queued as exactly one packet");
+        let e = if bypass { mine.bypassable.peek() } else if queued { mine.blocking.iter().find(|e| e.contains_padding) } else { mine.blocking.peek() };
         assert!(e.is_some(), "C16: only padding whose action has the bypass flag is queued as bypassable");
         let e = e.unwrap();
         assert!(e.event == TriggerEvent::TunnelSent && e.time == now && e.contains_padding && e.bypass == bypass && e.replace == replace && e.client == is_client,
             "C15: queued padding stays padding and carries its action's flags");
+        if queued {
+            let n = mine.blocking.iter().find(|e| !e.contains_padding);
+            assert!(n.is_some() && n.unwrap().time == qtime && !n.unwrap().bypass, "C15: the queued normal packet is untouched by padding that does not replace it");
+        }
     }
-    kani::cover!(replace && queued && bypass, "bypass padding replaced by the queued normal packet");
+    kani::cover!(replace && (bypass || bypass_case == 0), "padding with the replace flag (and bypass where the instance allows it)");
     core::mem::forget(sq);
     core::mem::forget(side);
     core::mem::forget(other);
     core::mem::forget(network);
+}
+#[kani::proof]
+#[kani::unwind(4)]
+#[kani::stub(alloc::fmt::format, format_stub)]
+#[kani::stub(rand::thread_rng, no_thread_rng)]
+fn s_stack_padding_sent_empty() {
+    stack_padding_sent(false, 2);
+}
+#[kani::proof]
+#[kani::unwind(4)]
+#[kani::stub(alloc::fmt::format, format_stub)]
+#[kani::stub(rand::thread_rng, no_thread_rng)]
+fn s_stack_padding_sent_queued() {
+    stack_padding_sent(true, 0);
+}
+#[kani::proof]
+#[kani::unwind(4)]
+#[kani::stub(alloc::fmt::format, format_stub)]
+#[kani::stub(rand::thread_rng, no_thread_rng)]
+fn s_stack_padding_sent_queued_bypass() {
+    stack_padding_sent(true, 1);
 }
 
 // ------------------------------------------------------------------------------------------
